@@ -30,16 +30,15 @@ from ..common import MachineryError, time_limit, ImplTimeout
 UNIVERSES = {
     # quick tier: 6 features, 168 kinds, 28 224 ordered pairs
     "U0": ["CONTINUOUS_NUMBERS", "NUMERIC_FLUENTS", "DISCRETE_TIME", "REAL_FLUENTS", "INT_TYPE_DURATIONS", "PROCESSES"],
-    # thorough tier: U0 again with all same-version triples; U1 = U0 + a plain version-1 feature (336 kinds,
-    # 112 896 pairs); U2..U5 cover the remaining rules of upgrade_1_2
+    # thorough tier: U0 again with all same-version triples; U2..U5 (5 features, 84-88 kinds) cover the remaining
+    # rules of upgrade_1_2; U1 = U0 + a plain version-1 feature (336 kinds, 112 896 pairs)
     "U1": ["NEGATIVE_CONDITIONS", "CONTINUOUS_NUMBERS", "NUMERIC_FLUENTS", "DISCRETE_TIME",
            "REAL_FLUENTS", "INT_TYPE_DURATIONS", "PROCESSES"],
-    "U2": ["CONTINUOUS_NUMBERS", "DISCRETE_NUMBERS", "NUMERIC_FLUENTS", "INT_FLUENTS", "REAL_FLUENTS", "EVENTS"],
+    "U2": ["DISCRETE_NUMBERS", "NUMERIC_FLUENTS", "EQUALITIES", "INT_FLUENTS", "EVENTS"],
     "U3": ["ACTIONS_COST", "NUMERIC_FLUENTS", "INT_NUMBERS_IN_ACTIONS_COST", "REAL_NUMBERS_IN_ACTIONS_COST", "EVENTS"],
     "U4": ["OVERSUBSCRIPTION", "CONTINUOUS_NUMBERS", "INT_NUMBERS_IN_OVERSUBSCRIPTION",
            "REAL_NUMBERS_IN_OVERSUBSCRIPTION", "NON_LINEAR_CONTINUOUS_EFFECTS"],
-    "U5": ["CONTINUOUS_TIME", "DISCRETE_TIME", "DISCRETE_NUMBERS", "REAL_TYPE_DURATIONS", "INT_TYPE_DURATIONS",
-           "DECREASE_CONTINUOUS_EFFECTS"],
+    "U5": ["CONTINUOUS_TIME", "DISCRETE_NUMBERS", "REAL_TYPE_DURATIONS", "INT_TYPE_DURATIONS", "DECREASE_CONTINUOUS_EFFECTS"],
 }
 
 CONST = """CONSTANTS NF <- TabNF
@@ -388,7 +387,7 @@ def run(ctx):
     q = ctx.quick
     # (universe, full lub/glb quantification in T1, third-kind rows, compound bound queries)
     plan = ([("U0", False, False, False)] if q
-            else [("U0", True, True, True), ("U1", False, False, False)] + [(u, True, False, True) for u in ("U2", "U3", "U4", "U5")])
+            else [("U0", True, True, True)] + [(u, True, False, True) for u in ("U2", "U3", "U4", "U5")] + [("U1", False, False, False)])
     stats = {}
     for i, (name, full, triples, bounds) in enumerate(plan):
         stats[name] = check_universe(ctx, name, UNIVERSES[name], full, triples, bounds, coverage=(not q and i == 0))
